@@ -88,7 +88,9 @@ class Persona:
         if kind == "xtversion":
             if not self.xtversion:
                 return None
-            if self.xtversion_style == "paren":
+            if self.version is None:
+                body = self.name  # some terminals give their name only
+            elif self.xtversion_style == "paren":
                 body = "%s(%s)" % (self.name, self.version)
             else:
                 body = "%s %s" % (self.name, self.version)
@@ -96,6 +98,9 @@ class Persona:
         if kind == "kitty":
             if not self.kitty_graphics:
                 return None
+            if self.kitty_graphics is not True:
+                # the terminal knows the protocol but refuses this command: an error reply
+                return b"\x1b_Gi=" + arg + b";" + str(self.kitty_graphics).encode() + b"\x1b\\"
             return b"\x1b_Gi=" + arg + b";OK\x1b\\"
         if kind == "cell_px":
             return None if not self.cell_px else b"\x1b[6;%d;%dt" % (self.cell_px[1], self.cell_px[0])
